@@ -118,6 +118,7 @@ def run(ctx, n=None):
         {"services": {"a": {"todo": True, "arguments": ["@nothing", "%nothing%"]}}},
     ]
     cases = fixed + [mutate(ctx.rng, gen.gen_config(ctx.rng)) if i % 5 else gen.gen_config(ctx.rng) for i in range(n)]
+    cases += [gen.gen_config_wild(ctx.rng) for _ in range(n)]
     violations, corr_fail, nontriv = [], [], set()
     dist = {"accepted": 0, "missing_params": 0, "missing_services": 0, "in_decorator": 0, "rejected_earlier": 0}
     for cfg in cases:
